@@ -274,5 +274,5 @@ func main() {
 			run.Sample(json.RawMessage(raw))
 		}
 	})
-	run.Finish("cases = ElfLoad.tla: 6 segment layouts (ld-style page-aligned, lld-style segments sharing file pages, bss, executable segment starting mid page after read-only data, huge-page vaddr gap) x {ET_EXEC, ET_DYN with biases 0 / 5 / 77 pages, optionally plus a 47-bit constant} x page-granular splits of the executable mapping x addresses at segment and page edges, each translated through binutils.Open + ObjAddr in ascending and descending order on one ObjFile; symbol tables of 1-2 (thorough 3) symbols with duplicates, zero sizes, code and data x 12 lookup addresses through a fake nm; non-trivial = distinct (type, layout, mapping, address) / (table, query)")
+	run.Finish("cases = ElfLoad.tla: 8 segment layouts (ld-style page-aligned, lld-style segments sharing file pages, bss, executable segment starting mid page after read-only data, huge-page vaddr gap, executable segments with a zero-filled tail of several pages) x {ET_EXEC, ET_DYN with biases 0 / 5 / 77 pages, optionally plus a 47-bit constant} x page-granular splits of the executable mapping x addresses at segment and page edges, each translated through binutils.Open + ObjAddr in ascending and descending order on one ObjFile; symbol tables of 1-2 (thorough 3) symbols with duplicates, zero sizes, code and data x 12 lookup addresses through a fake nm; non-trivial = distinct (type, layout, mapping, address) / (table, query)")
 }
